@@ -53,11 +53,11 @@ uint8_t xv_g_b0, xv_g_b1;       /* ghost constants bound to entry values by requ
 /* ================================================================================================================ */
 #if defined(XV_AP_ADDR) || defined(XV_AP_DNS)
 /* the input string (env/addrpub_env.h): an object of exactly xv_in_len + 1 bytes, NUL at xv_in_len, no NUL at the
- * arbitrary position xv_j before it */
+ * arbitrary position xv_j before it, nor at the first three positions (code compares the first characters with literals) */
 #define XV_IN_MAXLEN 4096      /* input strings longer than this are not explored (is_fresh needs a bound); > 7 * XCM_ADDR_MAX */
 #define XV_IN_OBJSZ (xv_in_len + 1)
 #define XV_INSTR(s) (xv_in_len <= XV_IN_MAXLEN && xv_in_len < XV_IN_OBJSZ && __CPROVER_is_fresh((s), XV_IN_OBJSZ) && (s)[xv_in_len] == 0 && \
-                     (XV_J_IN(0, xv_in_len) ==> (s)[xv_j] != 0))
+                     (XV_J_IN(0, xv_in_len) ==> (s)[xv_j] != 0) && (0 < xv_in_len ==> (s)[0] != 0) && (1 < xv_in_len ==> (s)[1] != 0) && (2 < xv_in_len ==> (s)[2] != 0))
 
 /* ---- xcm_dns_is_valid_name: the length gate is real code, the verdict on the syntax is regexec's (TRUSTED) */
 bool xcm_dns_is_valid_name(const char *name)
@@ -65,6 +65,7 @@ __CPROVER_requires(XV_INSTR(name) && xv_regexec_calls >= 0 && xv_regexec_calls <
 __CPROVER_assigns(xv_regexec_calls, xv_regexec_ret, xv_regexec_on_input)
 /* PO[C12] xcm_dns_is_valid_name.length_gate: a valid name has at most 253 characters - with its NUL it fits struct xcm_addr_host.name - and longer input is refused without asking the regex */
 __CPROVER_ensures(__CPROVER_return_value ==> xv_in_len + 1 <= XV_NAME_ROOM)
+/* PO[C12] xcm_dns_is_valid_name.too_long_refused */
 __CPROVER_ensures(xv_in_len + 1 > XV_NAME_ROOM ==> (!__CPROVER_return_value && xv_regexec_calls == __CPROVER_old(xv_regexec_calls)))
 /* PO[C12] xcm_dns_is_valid_name.verdict: otherwise the name itself is matched exactly once and the match decides */
 __CPROVER_ensures(xv_in_len + 1 <= XV_NAME_ROOM ==> (xv_regexec_calls == __CPROVER_old(xv_regexec_calls) + 1 && xv_regexec_on_input && \
@@ -177,16 +178,17 @@ __CPROVER_ensures((!__CPROVER_return_value && XV_J_IN(0, xv_in_len)) ==> !XV_ISS
 static int proto_addr_parse(const char *addr_s, char *proto, size_t proto_capacity, char *proto_addr, size_t proto_addr_capacity)
 __CPROVER_requires(XV_INSTR(addr_s))
 __CPROVER_requires(proto_capacity <= XV_CAP_MAX && XV_OUT(proto, proto_capacity) && proto_addr_capacity <= XV_CAP_MAX && XV_OUT(proto_addr, proto_addr_capacity))
-__CPROVER_requires(xv_hb >= 0 && xv_hb < XV_CAP_MAX && (xv_hb < (long)proto_capacity ==> (uint8_t)proto[xv_hb] == xv_g_b0) && (xv_hb < (long)proto_addr_capacity ==> (uint8_t)proto_addr[xv_hb] == xv_g_b1))
+__CPROVER_requires(xv_hb >= 0 && xv_hb < XV_CAP_MAX && (xv_hb < (long)proto_capacity ==> (uint8_t)proto[xv_hb] == xv_g_b0))
 __CPROVER_requires(xv_chr_calls >= 0 && xv_chr_calls < 100 && xv_hs_calls >= 0 && xv_hs_calls < 100)
 /* the frame: errno, the records of the string models, and the two buffers WITHIN their capacities - nothing else */
 __CPROVER_assigns(xv_errno, xv_chr_calls, xv_chr_found, xv_chr_pos, xv_ncpy_len, xv_cpy_len, xv_hs_calls, xv_hs_rv)
 __CPROVER_assigns(proto_capacity > 0: __CPROVER_object_upto(proto, proto_capacity))
 __CPROVER_assigns(proto_addr_capacity > 0: __CPROVER_object_upto(proto_addr, proto_addr_capacity))
-/* (text of contracts/addr.h, both instantiations) */
+/* (text of contracts/addr.h, both instantiations; "no NUL inside the second string" is stated for the arbitrary position xv_j
+ * of the INPUT, i.e. for the output index xv_j - xv_chr_pos - 1, which ranges over the same set as addr.h's index) */
 __CPROVER_ensures(__CPROVER_return_value == 0 || (__CPROVER_return_value == -1 && (xv_errno == EINVAL || xv_errno == ENAMETOOLONG)))
 __CPROVER_ensures(__CPROVER_return_value == 0 ==> (xv_pa_len < proto_addr_capacity && xv_pa_len <= XCM_ADDR_MAX && proto_addr[xv_pa_len] == 0))
-__CPROVER_ensures(__CPROVER_return_value == 0 ==> (xv_pa_len <= XCM_ADDR_MAX && proto_addr[xv_pa_len] == 0 && ((xv_j >= 0 && (size_t)xv_j < xv_pa_len) ==> proto_addr[xv_j] != 0)))
+__CPROVER_ensures(__CPROVER_return_value == 0 ==> (xv_pa_len <= XCM_ADDR_MAX && proto_addr[xv_pa_len] == 0 && (XV_J_IN(xv_chr_pos + 1, xv_in_len) ==> proto_addr[(size_t)xv_j - xv_chr_pos - 1] != 0)))
 __CPROVER_ensures(__CPROVER_return_value == 0 ==> (xv_pp_len <= XCM_ADDR_MAX_PROTO_LEN && proto[xv_pp_len] == 0 && ((xv_j >= 0 && (size_t)xv_j < xv_pp_len) ==> proto[xv_j] != 0)))
 /* PO[C12] proto_addr_parse.accepts_only_wellformed: success only for at most XCM_ADDR_MAX characters, none of them white space, with a ':' whose first occurrence leaves a protocol part of at most XCM_ADDR_MAX_PROTO_LEN characters */
 __CPROVER_ensures(__CPROVER_return_value == 0 ==> PAP_WELLFORMED(addr_s))
@@ -195,7 +197,7 @@ __CPROVER_ensures(__CPROVER_return_value == 0 ==> (xv_chr_pos < proto_capacity &
 /* PO[C12] proto_addr_parse.proto_exact: the protocol output is NUL-terminated and is exactly the text before the first ':' */
 __CPROVER_ensures(__CPROVER_return_value == 0 ==> (xv_pp_len == xv_chr_pos && proto[xv_chr_pos] == 0 && (XV_J_IN(0, xv_chr_pos) ==> proto[xv_j] == addr_s[xv_j])))
 /* PO[C12] proto_addr_parse.rest_exact: the second output is NUL-terminated and is exactly the text after the first ':' */
-__CPROVER_ensures(__CPROVER_return_value == 0 ==> (xv_pa_len == PAP_REST && proto_addr[PAP_REST] == 0 && (XV_J_IN(0, PAP_REST) ==> proto_addr[xv_j] == addr_s[xv_chr_pos + 1 + (size_t)xv_j])))
+__CPROVER_ensures(__CPROVER_return_value == 0 ==> (xv_pa_len == PAP_REST && proto_addr[PAP_REST] == 0 && (XV_J_IN(xv_chr_pos + 1, xv_in_len) ==> proto_addr[(size_t)xv_j - xv_chr_pos - 1] == addr_s[xv_j])))
 /* PO[C12] proto_addr_parse.einval_for_a_reason: EINVAL only for an over-long string, white space (has_space said so), no ':' at all, or an over-long protocol part */
 __CPROVER_ensures((__CPROVER_return_value == -1 && xv_errno == EINVAL) ==> ( \
         xv_in_len > XCM_ADDR_MAX || (xv_hs_calls == __CPROVER_old(xv_hs_calls) + 1 && xv_hs_rv) || \
@@ -203,8 +205,9 @@ __CPROVER_ensures((__CPROVER_return_value == -1 && xv_errno == EINVAL) ==> ( \
         (xv_chr_found && xv_chr_pos < xv_in_len && addr_s[xv_chr_pos] == ':' && (XV_J_IN(0, xv_chr_pos) ==> addr_s[xv_j] != ':') && xv_chr_pos > XCM_ADDR_MAX_PROTO_LEN)))
 /* PO[C12] proto_addr_parse.toolong_for_a_reason: ENAMETOOLONG only for a well-formed string one of whose parts does not fit its buffer */
 __CPROVER_ensures((__CPROVER_return_value == -1 && xv_errno == ENAMETOOLONG) ==> (PAP_WELLFORMED(addr_s) && (xv_chr_pos >= proto_capacity || PAP_REST >= proto_addr_capacity)))
-/* failure writes nothing into either buffer (byte at the arbitrary offset xv_hb) */
-__CPROVER_ensures(__CPROVER_return_value == -1 ==> ((xv_hb < (long)proto_capacity ==> (uint8_t)proto[xv_hb] == xv_g_b0) && (xv_hb < (long)proto_addr_capacity ==> (uint8_t)proto_addr[xv_hb] == xv_g_b1)))
+/* failure writes nothing into the protocol buffer (byte at the arbitrary offset xv_hb; the same holds for the second
+ * buffer, but that is a scratch local of every caller, whose entry value no caller can name) */
+__CPROVER_ensures(__CPROVER_return_value == -1 ==> (xv_hb < (long)proto_capacity ==> (uint8_t)proto[xv_hb] == xv_g_b0))
 ;
 
 /* ---- xcm_addr_parse_proto: proto_addr_parse with the caller's buffer and capacity and a scratch buffer that takes any
@@ -244,7 +247,7 @@ __CPROVER_requires(XV_INSTR(host_s) && xv_in_len <= XCM_ADDR_MAX_HOST_LEN && __C
 __CPROVER_requires(xv_pton_calls >= 0 && xv_pton_calls < 100 && xv_regexec_calls >= 0 && xv_regexec_calls < 100)
 __CPROVER_requires(xv_hb >= 0 && xv_hb < (long)sizeof(*host) && ((const uint8_t *)host)[xv_hb] == xv_g_b0)
 __CPROVER_assigns(xv_errno, __CPROVER_object_upto(host, sizeof(*host)))
-__CPROVER_assigns(xv_pton_calls, xv_pton_af, xv_pton_ret, xv_pton_c, __CPROVER_object_whole(xv_pton_out), xv_regexec_calls, xv_regexec_ret, xv_regexec_on_input, xv_ncpy_len, xv_cpy_len)
+__CPROVER_assigns(xv_pton_calls, xv_pton_af, xv_pton_ret, xv_pton_c, xv_pton_c1, __CPROVER_object_whole(xv_pton_out), xv_regexec_calls, xv_regexec_ret, xv_regexec_on_input, xv_ncpy_len, xv_cpy_len)
 /* (text of contracts/addr.h) */
 __CPROVER_ensures(__CPROVER_return_value == 0 || (__CPROVER_return_value == -1 && xv_errno == EINVAL))
 /* PO[C12] host_parse.consistent: an accepted host is an IPv4 or IPv6 address, or a NUL-terminated name of 1..253 characters */
@@ -254,17 +257,19 @@ __CPROVER_ensures(__CPROVER_return_value == 0 ==> (host->type == xcm_addr_type_i
 __CPROVER_ensures(HP_LEN == 0 ==> (__CPROVER_return_value == -1 && HP_NO_PTON && HP_NO_DNS))
 /* PO[C12] host_parse.v6_brackets: text starting with '[' is an IPv6 host or nothing; it needs the closing ']' as its last character */
 __CPROVER_ensures((HP_V6(host_s) && !HP_V6_SHAPE(host_s)) ==> (__CPROVER_return_value == -1 && HP_NO_PTON && HP_NO_DNS))
+/* PO[C12] host_parse.v6_only: ... and is never taken for an IPv4 address or a name */
 __CPROVER_ensures((HP_V6(host_s) && __CPROVER_return_value == 0) ==> (host->type == xcm_addr_type_ip && host->ip.family == AF_INET6 && HP_NO_DNS))
 /* PO[C12] host_parse.v6_wildcard: [*] is the IPv6 wildcard address (all zero), decided without inet_pton */
 __CPROVER_ensures((HP_V6(host_s) && HP_V6_SHAPE(host_s) && HP_V6_WILD(host_s)) ==> (__CPROVER_return_value == 0 && HP_NO_PTON && (xv_mc < 16 ==> host->ip.addr.ip6[xv_mc] == 0)))
 /* PO[C12] host_parse.v6_literal: otherwise inet_pton(AF_INET6) is asked once about exactly the text between the brackets, its verdict decides, and its 16 bytes are the address */
 __CPROVER_ensures((HP_V6(host_s) && HP_V6_SHAPE(host_s) && !HP_V6_WILD(host_s)) ==> (HP_PTON_ONCE(AF_INET6) && (__CPROVER_return_value == 0) == (xv_pton_ret == 1) && \
-                  (XV_J_IN(0, HP_LEN - 2) ==> xv_pton_c == host_s[1 + (size_t)xv_j]) && ((xv_j >= 0 && (size_t)xv_j == HP_LEN - 2) ==> xv_pton_c == 0) && \
+                  (XV_J_IN(1, HP_LEN - 1) ==> xv_pton_c1 == host_s[xv_j]) && ((xv_j >= 0 && (size_t)xv_j == HP_LEN - 1) ==> xv_pton_c1 == 0) && \
                   ((__CPROVER_return_value == 0 && xv_mc < 16) ==> host->ip.addr.ip6[xv_mc] == xv_pton_out[xv_mc])))
 /* PO[C12] host_parse.v4_wildcard: * is INADDR_ANY, decided without inet_pton */
 __CPROVER_ensures((!HP_V6(host_s) && HP_V4_WILD(host_s)) ==> (__CPROVER_return_value == 0 && HP_NO_PTON && HP_NO_DNS && host->type == xcm_addr_type_ip && host->ip.family == AF_INET && host->ip.addr.ip4 == 0))
 /* PO[C12] host_parse.v4_literal: any other non-empty text goes to inet_pton(AF_INET) once, as it is; if that accepts it, its 4 bytes (network order) are the address */
 __CPROVER_ensures((HP_LEN >= 1 && !HP_V6(host_s) && !HP_V4_WILD(host_s)) ==> (HP_PTON_ONCE(AF_INET) && (XV_J_IN(0, HP_LEN + 1) ==> xv_pton_c == host_s[xv_j])))
+/* PO[C12] host_parse.v4_address */
 __CPROVER_ensures((HP_LEN >= 1 && !HP_V6(host_s) && !HP_V4_WILD(host_s) && xv_pton_ret == 1) ==> (__CPROVER_return_value == 0 && HP_NO_DNS && host->type == xcm_addr_type_ip && host->ip.family == AF_INET && \
                   HP_IP4_IS(host, xv_pton_out[0], xv_pton_out[1], xv_pton_out[2], xv_pton_out[3])))
 /* PO[C12] host_parse.name: what inet_pton refuses is a DNS name if and only if xcm_dns_is_valid_name says so (length gate 253, then the regex); the name is copied byte for byte with its NUL */
